@@ -26,6 +26,8 @@ impl<M: MovingAverageConstructor> RelativeStrengthIndex<M> {
 		r is Ok ==> r->Ok_0.previous_input@ == src_val(candle, self.source)
 			&& self.ma.seeded(0real, &r->Ok_0.posma) && self.ma.seeded(0real, &r->Ok_0.negma),
 		r is Ok ==> r->Ok_0.posma.convex() == self.ma.convex_kind() && r->Ok_0.negma.convex() == self.ma.convex_kind(),
+		// C08: for an averaging kind that cannot overshoot, the constant state for the candle's source price (rsi_const_step)
+		r is Ok && self.ma.convex_kind() ==> r->Ok_0.const_state(src_val(candle, self.source)),
 //@replace Ok(Self::Instance { ==> Ok(RelativeStrengthIndexInstance {
 //@end
 }
@@ -94,6 +96,25 @@ impl<M: MovingAverageConstructor> RelativeStrengthIndexInstance<M> {
 //@replace let overbought = self.cross_upper.next(&(value, 1. - self.cfg.zone)).analog(); ==> let hi_act__ = self.cross_upper.next(&(value, R::lit(1, 1) - self.cfg.zone)); let overbought = hi_act__.analog();
 //@replace let neg: ValueType = self.negma.next(&change.min(0.)) * -1.; ==> let tmp1__ = change.min(R::lit(0, 1)); proof { self.negma.input_always_ok(&tmp1__); } let tmp2__ = self.negma.next(&tmp1__); let neg: ValueType = tmp2__ * -R::lit(1, 1);
 //@end
+}
+
+// ---- C08 at indicator level (averaging kinds that cannot overshoot): RSI on a repeated candle: no gain, no loss, value 0.5, no signals
+impl<M: MovingAverageConstructor> RelativeStrengthIndexInstance<M> {
+	pub open spec fn const_state(&self, s: real) -> bool {
+		&&& self.inv() && self.previous_input@ == s && self.posma.convex() && self.negma.convex()
+		&&& self.posma.within(0real, 0real) && self.negma.within(0real, 0real)
+		&&& 0real < self.cfg.zone@ <= 0.5real
+		&&& (self.cross_lower.up.last_delta@ == 0real || self.cross_lower.up.last_delta@ == 0.5real - self.cfg.zone@)
+		&&& (self.cross_upper.up.last_delta@ == 0real || self.cross_upper.up.last_delta@ == self.cfg.zone@ - 0.5real)
+	}
+}
+pub proof fn rsi_const_step<M: MovingAverageConstructor>(pre: &RelativeStrengthIndexInstance<M>, src: real, post: &RelativeStrengthIndexInstance<M>, value: ValueType, up: ValueType, dn: ValueType, p: ValueType, n: ValueType,
+	s1: Action, s2: Action, lo: Action, hi: Action)
+	requires pre.const_state(src), post.inv(), post.cfg == pre.cfg, rsi_step(pre, src, post, value@, up, dn, p, n), rsi_signals(pre, value, post, s1, s2, lo, hi)
+	ensures value@ == 0.5real, s1 is None, s2 is None, post.const_state(src)
+{
+	<M::Instance as MovingAverage>::lemma_within_step(&pre.posma, &up, &post.posma, &p, 0real, 0real);
+	<M::Instance as MovingAverage>::lemma_within_step(&pre.negma, &dn, &post.negma, &n, 0real, 0real);
 }
 } // verus!
 fn main() {}
